@@ -193,6 +193,12 @@ def party(kind, uid="orcid", email="present", name="both", role=False):
         k.append(["individualName", None, {}, [["surName", "S", {}, []]]])
     elif name == "emptygiven":
         k.append(["individualName", None, {}, [["givenName", "", {}, []], ["surName", "S", {}, []]]])
+    elif name == "emptygiven_then_given":
+        # several given names of which only a later one has text (the first carries a translated <value> only)
+        k.append(["individualName", None, {}, [["givenName", None, {}, [["value", "Jo", {"xml:lang": "es"}, []]]],
+                                               ["givenName", "G", {}, []], ["surName", "S", {}, []]]])
+    elif name == "given_then_emptygiven":
+        k.append(["individualName", None, {}, [["givenName", "G", {}, []], ["givenName", "", {}, []], ["surName", "S", {}, []]]])
     elif name == "org":
         k.append(["organizationName", "Org", {}, []])
     if email == "present":
@@ -399,7 +405,7 @@ def dataset_product():
 def party_options():
     for uid in ("none", "orcid", "other", "empty", "two", "two_orcid_first", "orcid_then_empty", "nodir"):
         for email in ("none", "present", "empty", "present_then_empty"):
-            for name in ("both", "sur", "emptygiven", "org"):
+            for name in ("both", "sur", "emptygiven", "org", "emptygiven_then_given", "given_then_emptygiven"):
                 yield dict(uid=uid, email=email, name=name)
 
 
@@ -422,7 +428,8 @@ def single_knob_deviations():
     devs += [dict(coverage=False), dict(datatable=False), dict(rights="absent"), dict(rights="empty"), dict(methods=False),
              dict(project=False), dict(keywords=()), dict(keywords=(4,)), dict(keywords=(2, 2))]
     for kind in ("creator", "contact", "personnel"):
-        for o in (dict(uid="none"), dict(uid="other"), dict(email="none"), dict(name="sur"), dict(name="emptygiven")):
+        for o in (dict(uid="none"), dict(uid="other"), dict(email="none"), dict(name="sur"), dict(name="emptygiven"),
+                  dict(name="emptygiven_then_given")):
             devs.append({kind: o})
     for kind in ("metadataProvider", "associatedParty"):
         for o in (dict(), dict(uid="other", email="empty"), dict(uid="none", name="org")):
@@ -442,6 +449,83 @@ def single_knob_deviations():
 # ---------------------------------------------------------------------------
 # checking one tree
 # ---------------------------------------------------------------------------
+
+def compare_with_oracle(got, spec):
+    """got: [(code name, path)]; returns [(expected, observed, code)] for every disagreement with the oracle"""
+    out = []
+    exp, unspec, either = expected(spec)
+    # the warning about X is attributed to node Y: dataset-level warnings to the dataset node, etc. (as the statement's triples)
+    gc = Counter((c, p) for c, p in got if p not in unspec and p not in either)
+    ec = Counter((c, p) for c, p in exp if p not in unspec and p not in either)
+    # 'either' slots: the node must carry exactly one of the alternatives besides its other expected codes
+    for p, alts in either.items():
+        if p in unspec:
+            continue
+        g_here = Counter(c for c, pp in got if pp == p)
+        e_here = Counter(c for c, pp in exp if pp == p)
+        extra = g_here - e_here
+        if not (sum(extra.values()) == 1 and list(extra)[0] in alts) or (e_here - g_here):
+            out.append(({"at": list(p), "expected": sorted(e_here.elements()), "plus one of": list(alts)},
+                        sorted(g_here.elements()), list(alts)[0]))
+    if gc != ec:
+        missing = sorted((ec - gc).elements())
+        extra = sorted((gc - ec).elements())
+        first = (missing or extra)[0]
+        out.append(({"missing": [[c, list(p)] for c, p in missing[:6]]},
+                    {"unexpected": [[c, list(p)] for c, p in extra[:6]]}, first[0]))
+    return out
+
+
+def spec_of(node):
+    return [node.name, node.content, dict(node.attributes), [spec_of(c) for c in node.children]]
+
+
+def edit_work(params):
+    """evaluate - edit - evaluate on the same objects: after every single in-place edit of a text (emptied if it had words,
+    filled with 25 words if it had none) the evaluation must be that of the tree as it is now"""
+    acc = core.Acc()
+    spec = build(params)
+    core.reset_store()
+    root = witness.build(spec)
+    nodes = witness.preorder(root)
+    pathmap = {}
+
+    def walk(n, path):
+        pathmap[id(n)] = path
+        for i, c in enumerate(n.children):
+            walk(c, path + (i,))
+    walk(root, ())
+
+    def run():
+        ws = []
+        evaluate.tree(root, ws)
+        return [(w[0].name, pathmap[id(w[2])]) for w in ws]
+    n_edits = 0
+    try:
+        run()
+        for n in nodes:
+            if n.name == "references":
+                continue
+            old = n.content
+            if old is None and n.children:
+                continue
+            new = "" if (old and old.split()) else W_(25)
+            n.content = new
+            n_edits += 1
+            case = {"kind": "edit-then-evaluate", "params": params, "edited": list(pathmap[id(n)]), "element": n.name, "new_content": new}
+            for e_, o_, code_ in compare_with_oracle(run(), spec_of(root)):
+                acc.add_problem(problem("warnings_differ", case, expected=e_, observed=o_, code=code_, after="in-place edit"))
+            n.content = old
+            for e_, o_, code_ in compare_with_oracle(run(), spec_of(root)):
+                acc.add_problem(problem("warnings_differ", dict(case, restored=True), expected=e_, observed=o_, code=code_,
+                                        after="in-place edit undone"))
+    except Exception as e:  # noqa
+        acc.add_problem(problem("evaluate_raised", {"kind": "edit-then-evaluate", "params": params}, expected="no exception",
+                                observed=repr(e), call="tree", exc=type(e).__name__))
+    acc.count("edit_then_evaluate", n_edits)
+    acc.count("trees")
+    return acc
+
 
 def check(spec, case, want_valid=None, acc=None, insert=False):
     probs = []
@@ -498,26 +582,8 @@ def check(spec, case, want_valid=None, acc=None, insert=False):
             return probs
         if r is not None and not isinstance(r, list):
             bad("node_result_malformed", "None or a list", repr(r)[:100], element=n.name)
-    exp, unspec, either = expected(spec)
-    # the warning about X is attributed to node Y: dataset-level warnings to the dataset node, etc. (as the statement's triples)
-    gc = Counter((c, p) for c, p in got if p not in unspec and p not in either)
-    ec = Counter((c, p) for c, p in exp if p not in unspec and p not in either)
-    # 'either' slots: the node must carry exactly one of the alternatives besides its other expected codes
-    for p, alts in either.items():
-        if p in unspec:
-            continue
-        g_here = Counter(c for c, pp in got if pp == p)
-        e_here = Counter(c for c, pp in exp if pp == p)
-        extra = g_here - e_here
-        if not (sum(extra.values()) == 1 and list(extra)[0] in alts) or (e_here - g_here):
-            bad("warnings_differ", {"at": list(p), "expected": sorted(e_here.elements()), "plus one of": list(alts)},
-                sorted(g_here.elements()), code=list(alts)[0])
-    if gc != ec:
-        missing = sorted((ec - gc).elements())
-        extra = sorted((gc - ec).elements())
-        first = (missing or extra)[0]
-        bad("warnings_differ", {"missing": [[c, list(p)] for c, p in missing[:6]]},
-            {"unexpected": [[c, list(p)] for c, p in extra[:6]]}, code=first[0])
+    for e_, o_, code_ in compare_with_oracle(got, spec):
+        bad("warnings_differ", e_, o_, code=code_)
     if acc is not None:
         for c, _ in got:
             acc.outcome("code:" + c)
@@ -559,6 +625,8 @@ def base_work(item):
 
 
 def work(item):
+    if item[0] == "edit":
+        return edit_work(item[1])
     return param_work(item[1]) if item[0] == "param" else base_work(item[1])
 
 
@@ -616,6 +684,9 @@ def _baseline_errors(_):
 
 
 def replay(case):
+    if case["kind"] == "edit-then-evaluate":
+        a = edit_work(case["params"])
+        return [p for ps in a.problems.values() for p in ps]
     if case["kind"] == "parametric":
         return check(build(case["params"]), case)
     if case.get("spec") is not None:
@@ -634,6 +705,8 @@ def explore(tier):
     for label, spec in bases:
         d = 1 if (label.startswith("min:") or tier == "thorough") else 0
         items.append(("base", (label, spec, d)))
+    # evaluate - edit - evaluate on the baseline and on every single-knob deviation from it
+    items += [("edit", dev) for dev in [dict()] + single_knob_deviations()]
     accs = core.pmap(work, items)
     acc = core.merge_all(accs)
     # validity of the baseline (reported, not required by the oracle); run in a child like everything else
@@ -650,6 +723,7 @@ def explore(tier):
                 "listed parent; all pairs (thorough: triples of every other) of single-knob deviations across evaluators; plus every "
                 "generated witness tree and every tree within one mutation of the minimal witnesses that uses known names only. "
                 "Non-trivial = trees with at least one warning.",
+        "edit_then_evaluate_cases": acc.counts.get("edit_then_evaluate", 0),
         "parametric_trees": acc.counts.get("parametric", 0),
         "witness_and_mutant_trees": acc.counts.get("witness_or_mutant", 0),
         "baseline_valid": errs == [],
